@@ -13,6 +13,7 @@ partial def runLoop (h : IO.FS.Stream) (out : IO.FS.Stream) : IO Unit := do
   if !l.isEmpty then
     let o := handle l
     out.putStrLn (o.model ++ " ||| " ++ o.spec)
+    out.flush
   runLoop h out
 
 def main (args : List String) : IO UInt32 := do
